@@ -19,12 +19,16 @@ coordinate of the volumes of the cross-sections, clipped at the reference.
   to end (`C12_1d`, `C12_2d_sweep`, `C12_1d_code`, `C12_2d_code`), for every argsort order;
 * three objectives (`C12_3d_code`): the general dimension-sweep branch at its top level, calling
   the 2-D sweep, is proved equal to the specification end to end as well;
-* **partial** (`C12_nd_code_partial`): for ≥ 4 objectives the nested dimension-sweep with its
-  `ignore` flags set by outer levels, cached `area`/`volume` arrays and shared `bounds`
-  (`Model.levelN` calling itself) is an executable model that the correspondence run compares with
-  the implementation and with `hv` on every generated case; it is not proved equal to `hv`.
-  What is proved is the scheme it optimises (`C12_sweep_scheme`, `C12_slicing_order`) and the
-  two repaired defects as kernel-evaluated regression examples.
+* four objectives (`C12_4d_code`), boundary points included, and any number of objectives
+  (`C12_nd_code_class`, `C12_nd_code_interior`): the nested dimension sweep (`Model.levelN` calling
+  itself) with the `ignore` flags set by outer levels, the cached `area`/`volume` arrays and the
+  shared `bounds` is proved equal to the specification, by induction over the recursion levels with
+  the invariant `Spec` (`C12_level_invariant`; `C12_ignore_sound` is the soundness of the flag
+  test) — for `m ≥ 5` under the side condition that no point touches the reference boundary in an
+  objective `3 … m−2`;
+* **partial** (`C12_nd_code_partial`): for ≥ 5 objectives *and a point on the reference boundary in
+  an objective `3 … m−2`* the model is tied to `hv` by the correspondence run only (see the comment
+  at `C12_nd_code`).
 
 Side-effect freedom is an observation on the real code (the caller's array and reference are
 compared before/after every call in `harness/c12.py`); in the model it is immediate: every
@@ -188,22 +192,98 @@ theorem C12_sweep_scheme (r : Rat) (rs : List Rat) (q : Vec) (rest : List Vec)
     hv (r :: rs) (q :: rest) = sweepSum (fun X => hv rs (X.map List.tail)) r [] q rest :=
   hv_eq_sweepSum r rs q rest hs hr hne
 
+/-- **C12 (strictly monotone).**  A point strictly inside the reference box that no point of the set
+weakly dominates adds volume. -/
+theorem C12_strict_monotone (ref : List Rat) (q : Vec) (P : List Vec) (hP : Rect ref.length P)
+    (hq : ltVec q ref = true) (hnd : ∀ p ∈ P, wdVec p q = false) : hv ref P < hv ref (q :: P) :=
+  hv_lt_cons ref q P hP hq hnd
+
+/-- **C12 (soundness of the `ignore` test).**  `hvRecursive` flags a node when linking it does not
+increase the cross-section volume; for a node strictly inside the box this happens only if a node
+linked before weakly dominates it (so skipping it at the lower levels loses nothing). -/
+theorem C12_ignore_sound (ref : List Rat) (q : Vec) (P : List Vec) (hP : Rect ref.length P)
+    (hq : ltVec q ref = true) (h : hv ref (q :: P) ≤ hv ref P) : ∃ p ∈ P, wdVec p q = true :=
+  hv_eq_imp_dominated ref q P hP hq h
+
+/-- **C12 (the invariant of the nested sweep).**  For a run (`Run.OK`: rectangular, weakly inside the box with boundary coordinates only in the objectives
+`0, 1, 2, m−1`, sweep lists as built by `preProcess`), **every** recursion level
+`j+1 ≥ 1` of `hvRecursive` satisfies the level specification `Spec`: called on linked ids `S` in a
+state whose caches `area[k]`/`volume[k]` (`k ≤ j+1`) are exact below `bounds[k]` (`Cache`) and whose
+`ignore` flags `≥ j+1` are justified by a dominating node in front or by a boundary coordinate
+(`FIge`), it returns the exact
+hypervolume of `S` projected on the coordinates `0..j+1`, re-establishes the caches for the new
+`bounds`, leaves every set flag justified (`AllFI`) and changes nothing above its level
+(`Frame`). -/
+theorem C12_level_invariant (R : Run) (hR : R.OK) (j : Nat) (hj : j + 1 < R.m) :
+    Spec R (j + 1) (hvRecursive true R.orders (j + 1)) :=
+  spec_all hR j hj
+
+/-- **C12 (four objectives, the whole function).**  Points weakly below the reference — boundary
+points included — and every argsort order: NDS pre-filter, shift, `preProcess`, the dimension sweep
+at `dimIndex = 3` calling the stateful sweep at `dimIndex = 2` (with its `ignore` flags, cached
+`area`/`volume` and `bounds`), which calls the 2-D sweep. -/
+theorem C12_4d_code (r0 r1 r2 r3 : Rat) (pts : List Vec) (order : List Nat)
+    (ho : OrderOK pts.length order) (hrect : Rect 4 pts)
+    (hle : ∀ p ∈ pts, wdVec p [r0, r1, r2, r3] = true)
+    (hbig : ∀ p ∈ pts, ∀ k, k < 4 → negInf < co p k - co [r0, r1, r2, r3] k) :
+    hypervolumeCode pts [r0, r1, r2, r3] order = some (hv [r0, r1, r2, r3] pts) :=
+  hypervolumeCode_nd [r0, r1, r2, r3] pts order ho.1 ho.2 (by simp) hrect hle hbig
+    (fun _ _ k hk _ => by
+      simp only [List.length_cons, List.length_nil] at hk ⊢
+      omega)
+
+/-- **C12 (any number of objectives, the whole function).**  For every number `m ≥ 2` of objectives,
+every point set weakly below the reference (and above the code's sentinel `-1.0e308`) and every
+argsort order, `hypervolume(pointset, ref)` — NDS pre-filter, shift, `preProcess`, the nested
+dimension sweep `hvRecursive` with its `ignore` flags, cached `area`/`volume` arrays and shared
+`bounds` — returns the exact hypervolume, **provided** (`hcls`) a coordinate of a point EQUALS the
+reference's only in the objectives `0, 1, 2` or in the last one.  (No restriction for `m ≤ 4`; for
+`m ≥ 5` the excluded case is a point on the reference boundary in an objective `3 … m−2`.) -/
+theorem C12_nd_code_class (ref : List Rat) (pts : List Vec) (order : List Nat)
+    (ho : OrderOK pts.length order) (hm : 2 ≤ ref.length) (hrect : Rect ref.length pts)
+    (hle : ∀ p ∈ pts, wdVec p ref = true)
+    (hbig : ∀ p ∈ pts, ∀ k, k < ref.length → negInf < co p k - co ref k)
+    (hcls : ∀ p ∈ pts, ∀ k, k < ref.length → co p k = co ref k → k ≤ 2 ∨ k + 1 = ref.length) :
+    hypervolumeCode pts ref order = some (hv ref pts) :=
+  hypervolumeCode_nd ref pts order ho.1 ho.2 hm hrect hle hbig hcls
+
+/-- … in particular for every point set strictly inside the reference box, in any number of
+objectives. -/
+theorem C12_nd_code_interior (ref : List Rat) (pts : List Vec) (order : List Nat)
+    (ho : OrderOK pts.length order) (hm : 2 ≤ ref.length) (hrect : Rect ref.length pts)
+    (hlt : ∀ p ∈ pts, ltVec p ref = true)
+    (hbig : ∀ p ∈ pts, ∀ k, k < ref.length → negInf < co p k - co ref k) :
+    hypervolumeCode pts ref order = some (hv ref pts) :=
+  hypervolumeCode_nd ref pts order ho.1 ho.2 hm hrect (fun p hp => wdVec_of_ltVec (hlt p hp)) hbig
+    (fun p hp k hk heq => absurd heq (ne_of_lt (co_of_ltVec p ref k (hlt p hp) hk)))
+
 /-
-TARGET (not proved), any number of objectives `m = ref.length ≥ 1`:
+TARGET (not proved in full), any number of objectives `m = ref.length ≥ 1`, points weakly below the
+reference (`wdVec p ref`, i.e. points ON the reference boundary allowed):
 
   theorem C12_nd_code (ref : List Rat) (pts : List Vec) (order : List Nat)
       (hm : 0 < ref.length) (ho : OrderOK pts.length order) (hrect : Rect ref.length pts)
       (hle : ∀ p ∈ pts, wdVec p ref = true) (hbig : …above the sentinel…) :
       hypervolumeCode pts ref order = some (hv ref pts)
 
-Proved for `m = 1, 2, 3` (`C12_1d_code`, `C12_2d_code`, `C12_3d_code`).  Missing for `m ≥ 4`: there
-the recursive call is itself `levelN`, which reuses the cached `area[d]`/`volume[d]` of the prefix
-kept by `bounds[d]` and skips nodes whose `ignore` flag was set by an outer level — an invariant
-relating those caches and flags to the cross-section volumes is needed.  This is the part of the
-implementation in which both defects repaired by 9767936 / ecd8f06 were found.
+Proved: `m = 1, 2, 3, 4` (`C12_1d_code`, `C12_2d_code`, `C12_3d_code`, `C12_4d_code`) and every `m ≥ 5`
+under `hcls` (`C12_nd_code_class`; in particular all interior point sets, `C12_nd_code_interior`).
+Missing: `m ≥ 5` with a point that has a coordinate EQUAL to the reference's in an objective
+`i ∈ 3 … m−2`.  Such a node adds nothing at every level `e > i`, is flagged `ignore` there without a
+dominating node and is then skipped also at the levels `2 ≤ d < i` where it would contribute; the
+cached areas of the nodes behind it are then not the exact cross-section volumes (observed on the
+real code: 6 % of the `area` assignments on boundary-heavy inputs, 0 on interior ones).  The result
+is still right because that node sits in the zero-width top group of list `i`, so everything computed
+while it is linked below level `i` is multiplied by `0`, and the affected caches are invalidated
+when it is unlinked — but the invariant `Spec` would have to be relativised to "not behind such a node"
+and a non-interference argument for the flags set in that zone is needed; that is not done.  (For
+`i ≤ 2` the skipped levels `2 ≤ d < i` do not exist, `i = d = 2` is itself the zero-width group, and
+a zero in the last objective is never flagged from above: these are the cases `hcls` admits.)  The
+correspondence run covers the missing case on every run.
 -/
 
-/-- **C12 (≥ 4 objectives, partial).**  Everything around the unproved sweep is proved: the
+/-- **C12 (≥ 5 objectives with boundary points in the middle objectives, partial).**  Everything around the sweep is proved
+without the interior hypothesis: the
 pre-filter and the shift preserve the hypervolume, and the recursion scheme the sweep implements
 (slice on the last coordinate, recurse on the cross-sections) computes `hv`.  So
 `hypervolumeCode pts ref order = some (hv ref pts)` follows as soon as
@@ -247,6 +327,17 @@ example : OrderOK 3 [2, 0, 1] := by
     rcases this with rfl | rfl | rfl <;> simp
   · intro i hi; simp at hi; omega
 example : meets [[1, 3]] [[3, 1], [2, 2]] = [[3, 3], [2, 3]] := by decide +kernel
+-- hypotheses of C12_4d_code: 4 objectives with points ON the reference boundary (every objective)
+example : (∀ p ∈ ([[4, 1, 2, 0], [0, 4, 1, 2], [2, 0, 4, 1], [1, 2, 0, 4]] : List Vec), wdVec p [4, 4, 4, 4] = true) ∧
+    (∀ p ∈ ([[4, 1, 2, 0], [0, 4, 1, 2], [2, 0, 4, 1], [1, 2, 0, 4]] : List Vec), ∀ k, k < 4 → negInf < co p k - co [4, 4, 4, 4] k) ∧
+    hypervolumeCode [[4, 1, 2, 0], [0, 4, 1, 2], [2, 0, 4, 1], [1, 2, 0, 4]] [4, 4, 4, 4] [0, 1, 2, 3] = some 0 ∧
+    hypervolumeCode [[3, 1, 2, 0], [0, 4, 1, 2], [2, 0, 3, 1], [1, 2, 0, 4]] [4, 4, 4, 4] [0, 1, 2, 3] = some 39 ∧
+    hv [4, 4, 4, 4] [[3, 1, 2, 0], [0, 4, 1, 2], [2, 0, 3, 1], [1, 2, 0, 4]] = 39 := by
+  decide +kernel
+-- hypotheses of C12_nd_code_interior: 5 objectives, strictly inside the box, above the sentinel
+example : (∀ p ∈ ([[0, 1, 1, 1, 0], [0, 0, 2, 2, 0], [0, 1, 1, 0, 1]] : List Vec), ltVec p [3, 3, 3, 3, 3] = true) ∧
+    (∀ p ∈ ([[0, 1, 1, 1, 0], [0, 0, 2, 2, 0], [0, 1, 1, 0, 1]] : List Vec), ∀ k, k < 5 → negInf < co p k - co [3, 3, 3, 3, 3] k) := by
+  decide +kernel
 -- hypotheses of C12_3d_code: a rectangular 3-objective set below the reference, above the sentinel
 example : (∀ p ∈ [[0, 3, 3], [3, 0, 3], [3, 3, 0], [4, 0, 0]], wdVec p [4, 4, 4] = true) ∧
     (∀ p ∈ ([[0, 3, 3], [3, 0, 3], [3, 3, 0], [4, 0, 0]] : List Vec), negInf < co p 2 - 4) := by
